@@ -5,7 +5,8 @@ import re
 
 from . import templates as T
 
-STYLES = ["sa_select", "sa_select_aliased", "sa_legacy", "sa_core", "sa_core_cols",
+STYLES = ["sa_select", "sa_select_aliased", "sa_legacy", "sa_legacy_aliased", "sa_core",
+          "sa_core_cols",
           "sa_core_fromjoin", "dj_qs",
           "dj_manager",
           "dj_custom_manager", "dj_related_manager"]
@@ -13,6 +14,8 @@ STYLES = ["sa_select", "sa_select_aliased", "sa_legacy", "sa_core", "sa_core_col
 RELATED = {"Post": ("Author", "posts", "author_id"),
            "Comment": ("Post", "comments", "post_id")}
 CORE_STYLES = ("sa_core", "sa_core_cols", "sa_core_fromjoin")
+LEGACY_STYLES = ("sa_legacy", "sa_legacy_aliased")
+ALIASED_STYLES = ("sa_select_aliased", "sa_legacy_aliased")
 HOST_OPS = {"eq": "__eq__", "ne": "__ne__", "lt": "__lt__", "le": "__le__", "gt": "__gt__",
             "ge": "__ge__"}
 DJ_LOOKUP = {"eq": "exact", "lt": "lt", "le": "lte", "gt": "gt", "ge": "gte"}
@@ -110,7 +113,7 @@ class Libs:
 class HostQuery:
     """Model-side record of one live query object."""
     __slots__ = ("qid", "style", "root", "obj", "preds", "order", "joins", "annotated",
-                 "chain", "snap0", "depth", "parent", "have", "limit")
+                 "chain", "snap0", "depth", "parent", "have", "limit", "distinct")
 
     def __init__(self, qid, style, root, obj, preds, order, joins, annotated, chain, depth,
                  parent):
@@ -120,6 +123,7 @@ class HostQuery:
         self.snap0 = None
         self.have = set()    # (owner model, rel) the query already joins (host or shorthand)
         self.limit = None    # (n, offset) once the host sliced the query
+        self.distinct = False
 
 
 def is_dj(style):
@@ -139,9 +143,10 @@ class Builder:
             return L.select(L.sm.MODELS[root])
         if style == "sa_select_aliased":
             return L.select(L.aliased(L.sm.MODELS[root]))
-        if style == "sa_legacy":
+        if style in LEGACY_STYLES:
             sess = self.session if self.session is not None else L.Session()
-            return sess.query(L.sm.MODELS[root])
+            ent = L.sm.MODELS[root]
+            return sess.query(L.aliased(ent) if style == "sa_legacy_aliased" else ent)
         if style == "sa_core":
             return L.select(L.sm.TABLES[root])
         if style == "sa_core_cols":
@@ -170,7 +175,7 @@ class Builder:
     def entity(self, style, root, obj, model=None):
         """The entity host expressions are written against: the mapped class, or - for an
         aliased root - the alias the query selects from."""
-        if style == "sa_select_aliased" and (model is None or model == root):
+        if style in ALIASED_STYLES and (model is None or model == root):
             return obj.column_descriptions[0]["entity"]
         return self.L.sm.MODELS[model or root]
 
@@ -183,7 +188,7 @@ class Builder:
         col = (L.sm.TABLES[root].c[cond["f"]] if style in CORE_STYLES
                else getattr(self.entity(style, root, obj), cond["f"]))
         expr = getattr(col, HOST_OPS[cond["op"]])(cond["v"])
-        return obj.filter(expr) if style == "sa_legacy" else obj.where(expr)
+        return obj.filter(expr) if style in LEGACY_STYLES else obj.where(expr)
 
     def join(self, style, root, obj, j):
         L = self.L
@@ -243,6 +248,10 @@ class Builder:
             return self.order(style, root, obj, op["o"])
         if k == "annotate":
             return self.annotate(style, root, obj)
+        if k == "where_many":
+            # a host condition across a to-many relation: rows repeat per matching member
+            c = op["cond"]
+            return obj.filter(**{op["rel"] + "__" + c["f"] + "__" + DJ_LOOKUP[c["op"]]: c["v"]})
         if k == "limit":
             n, m = op["n"], op.get("offset", 0)
             if is_dj(style):
@@ -279,7 +288,7 @@ class Builder:
                 return ("manager", type(obj).__name__, sql, tuple(params))
             sql, params = obj.all().query.sql_with_params()
             return ("queryset", sql, tuple(params))
-        stmt = obj.statement if style == "sa_legacy" else obj
+        stmt = obj.statement if style in LEGACY_STYLES else obj
         c = stmt.compile(dialect=L.sqlite_dialect)
         return ("sa", str(c), tuple(sorted((k, repr(v)) for k, v in c.params.items())))
 
@@ -295,7 +304,7 @@ class Builder:
             rows = list(qs)
             extra = [getattr(o, "rating_plus", None) for o in rows] if annotated else None
             return [o.pk for o in rows], extra
-        if style == "sa_legacy":
+        if style in LEGACY_STYLES:
             return [o.id for o in obj.all()], None
         if style in CORE_STYLES:
             return [r[0] for r in session.execute(obj).all()], None
@@ -354,7 +363,12 @@ def model_rows(q, db, filter_then_limit=False):
         rows = [r for r in rows if _join_keeps(q.root, r, j, db)]
     def keep(rows, preds):
         for p in preds:
-            if p["kind"] == "host":
+            if p["kind"] == "many":
+                tgt, back = T.TO_MANY[q.root][p["rel"]]
+                c = p["cond"]
+                rows = [r for r in rows for m in db[tgt]
+                        if m[back] == r["id"] and T.OPS[c["op"]](m[c["f"]], c["v"])]
+            elif p["kind"] == "host":
                 c = p["cond"]
                 rows = [r for r in rows if T.OPS[c["op"]](r[c["f"]], c["v"])]
             else:
@@ -368,6 +382,13 @@ def model_rows(q, db, filter_then_limit=False):
         f, d = q.order["f"], q.order["dir"]
         rows.sort(key=lambda r: r["id"])
         rows.sort(key=lambda r: r[f], reverse=(d == "desc"))
+    if q.distinct:
+        seen, uniq = set(), []
+        for r in rows:
+            if r["id"] not in seen:
+                seen.add(r["id"])
+                uniq.append(r)
+        rows = uniq
     if q.limit:
         n, m = q.limit
         rows = rows[m:m + n]
